@@ -43,11 +43,11 @@ def plan(tier, seed):
         for start in (0, 1):
             for b in gen.all_custom_bases(2, start):
                 A.append({'signature': sig, 'basis': b})
-    nq = (60, 100, 1500)[0 if tier == 'quick' else 2]
+    nq = (60, 100, 5000)[0 if tier == 'quick' else 2]
     for i in range(nq):
         d = (3, 3, 4)[i % 3]
         A.append(gen.random_custom_cfg(rng, d))
-    for i in range(6 if tier == 'quick' else 100):
+    for i in range(6 if tier == 'quick' else 300):
         A.append(gen.random_custom_cfg(rng, 5))
     A += gen.NAMED * (2 if tier == 'quick' else 6)
     for s in (0, 1, 2):
